@@ -118,6 +118,7 @@ def gen_case(rng, tier="quick"):
     case["nn_diss"] = rng.random() < 0.4
     case["entry"] = _pick(rng, ["operators", "operators", "liouvillians"])
     case["one_tuples"] = rng.random() < 0.2
+    case["staged_build"] = rng.random() < 0.25
     case["entangled_start"] = kind == "generic" and rng.random() < 0.3
     return case
 
@@ -312,6 +313,19 @@ def build_chain(case):
     chain = oqupy.SystemChain(list(case["dims"]))
     entry = case.get("entry", "operators")
     from oqupy import operators as opr
+    if case.get("staged_build"):
+        # the chain object is used by a computation while it is still being
+        # assembled (only part of the site terms are there yet)
+        half = max(1, n // 2)
+        for i in range(half):
+            chain.add_site_hamiltonian(i, hs[i])
+        early = oqupy.PtTebd(
+            oqupy.AugmentedMPS(initial_states(case)), chain, [None] * n,
+            oqupy.PtTebdParameters(dt=case["dt"], order=case["order"],
+                                   epsrel=case["epsrel"]))
+        early.compute(1, progress_type="silent")
+        for i in range(half):
+            chain.add_site_hamiltonian(i, -hs[i])
     for i in range(n):
         if entry == "liouvillians":
             # the same generator handed over through the Liouvillian entry
